@@ -193,6 +193,12 @@ func runOnce(in Sx) Sx {
 		return runSlicing(in)
 	case 7:
 		return runFamily(in)
+	case 8:
+		return runToyBuffer(in)
+	case 9:
+		return runFactoryBuffer(in)
+	case 10:
+		return runDuplex(in)
 	case 6:
 		msg := lcg(in.At(6).Uint64(), in.At(7).AsInt())
 		one := func(key, iv []byte) (bool, []byte) {
@@ -875,7 +881,9 @@ func gen(a Args, out *Out) {
 	}
 	slicingCases(a, out, rng.Fork())
 	familyCases(a, out, rng.Fork())
+	frameCases(a, out, rng.Fork())
 	finishSweeps()
+	duplexCases(a, out, rng.Fork())
 }
 
 // one secret handed to every factory name inside one process, in several creation orders and
@@ -1385,6 +1393,10 @@ func factorySweepOne(out *acc, rng *Rng, name string, maxLen, rounds, part, part
 
 func main() {
 	log.SetOutput(io.Discard)
+	if len(os.Args) > 1 && os.Args[1] == "duplex" {
+		duplexMain()
+		return
+	}
 	for _, a := range os.Args[1:] {
 		if a == "-replay" || a == "--replay" || strings.HasPrefix(a, "-replay=") || strings.HasPrefix(a, "--replay=") {
 			replayMode = true
